@@ -942,6 +942,8 @@ def getattr_(it, obj, name):
             obj.attrs[name] = v
             return v
         it.raise_('AttributeError', name)
+    if isinstance(obj, TypeV) and name in getattr(obj, 'attrs_static', {}):
+        return obj.attrs_static[name]
     if isinstance(obj, SuperV):
         for b in obj.cls.bases:
             if isinstance(b, ClassV):
@@ -2232,9 +2234,19 @@ def _consume_genexp_dict(it, ge):
     return consume_comp(it, ge, 'dict')
 
 
+class ListOfSet:
+    """list(s) of a symbolic set: an enumeration of exactly its elements"""
+
+    def __init__(self, s):
+        self.s = s
+        self.oid = new_oid()
+
+
 def _b_list(it, src=None):
     if src is None:
         return PyList()
+    if isinstance(src, SetV):
+        return ListOfSet(src)
     if isinstance(src, GenExp):
         return consume_comp(it, src, 'list')
     if isinstance(src, Opaque) and isinstance(src.attrs.get('__iter__'), Stream):
@@ -2270,6 +2282,8 @@ def _b_tuple(it, src=()):
 def _b_set(it, src=None):
     if src is None:
         return EmptySet()
+    if isinstance(src, ListOfSet):
+        return SetV(src.s.arr, src.s.elem_sort)
     if isinstance(src, GenExp):
         return consume_comp(it, src, 'set')
     if isinstance(src, SymSeq) and z3.is_seq(src.term):
@@ -2380,6 +2394,8 @@ def _b_zip(it, *srcs):
 def _b_str(it, v=''):
     if isinstance(v, str):
         return v
+    if isinstance(v, Opaque) and '__str__' in v.attrs:
+        return v.attrs['__str__']
     if isinstance(v, (bool, int)) or v is None:
         return str(v)
     if isinstance(v, SV) and v.t.sort().eq(StrS):
